@@ -99,6 +99,17 @@ theorem mem_ins {k : K} {b : β} {p : K × β} {l : List (K × β)} :
     p ∈ ins k b l ↔ p = (k, b) ∨ (p ∈ l ∧ p.1 ≠ k) := by
   simp only [ins, List.mem_cons, mem_del]
 
+/-- a successful lookup returns an entry of the list -/
+theorem mem_of_alGet {k : K} {b : β} {l : List (K × β)} (h : alGet k l = some b) : (k, b) ∈ l := by
+  induction l with
+  | nil => cases h
+  | cons q l ih =>
+    obtain ⟨a, c⟩ := q
+    simp only [alGet] at h
+    by_cases ha : a = k
+    · rw [if_pos ha] at h; cases h; subst ha; exact List.mem_cons_self
+    · rw [if_neg ha] at h; exact List.mem_cons_of_mem _ (ih h)
+
 /-- with unique keys, lookup and membership coincide -/
 theorem alGet_eq_some_iff {k : K} {b : β} {l : List (K × β)} (h : (keys l).Nodup) :
     alGet k l = some b ↔ (k, b) ∈ l := by
